@@ -89,6 +89,7 @@ def set_logging(mode: str) -> None:
     LOG_MODE = mode
 
 
+FAILFAST = bool(os.environ.get("VERIF_FAILFAST"))
 AMBIENT = {"lowprec": False, "dst_zone": False}
 
 
@@ -198,6 +199,12 @@ class Run:
     def merge(self, parts) -> None:
         for p in parts:
             self.total.merge(p)
+        if FAILFAST and self.total.v:
+            # evaluation of seeded changes / mutants only (never set by a registered command): stop at the first phase
+            # that reports a violation
+            self.exhaustive = False
+            self.notes.append("VERIF_FAILFAST: stopped after the first phase with a violation")
+            sys.exit(self.finish(0, 0, 0, 0, 0))
 
     def log(self, msg: str) -> None:
         print(f"[{self.pid} {_real_time() - self.t0:6.1f}s] {msg}", flush=True)
